@@ -34,6 +34,7 @@ import collections.abc
 import random as _random
 from . import common as C
 
+TRACE = os.environ.get('C19_TAB_TRACE')      # file that receives every call before it is made (to find a call that crashes the interpreter)
 TRANSLATOR = os.path.join(C.VERIF, 'translate', 'effects2v.py')
 CORPUS = os.path.join(C.VERIF, 'translate', 'effects_corpus')
 
@@ -417,7 +418,7 @@ def make_pool(EoN):
     add('ac', 'arr num', lambda R: R.M(np.array([1 + 2j, 3 - 1j]), 'ac'))
     add('ae', 'arr num', lambda R: R.M(np.zeros(0), 'ae'))
     add('ao', 'arr obj', lambda R: R.M(np.array([R.M([1], 'ao.box0'), R.M([2, 3], 'ao.box1')], dtype=object), 'ao'))
-    add('mat', 'arr num', lambda R: R.M(np.asmatrix(np.arange(4.0).reshape(2, 2).copy()), 'mat'))
+    # (np.matrix is not in the pool: np.stack(np.matrix, 2) crashes the interpreter in numpy 2.5; EoN does not use it)
     add('l', 'list', lambda R: R.M([3, 1, 2], 'l'))
     add('lf', 'list', lambda R: R.M([0.5, 0.25, 1.0, 2.0], 'lf'))
     add('le', 'list', lambda R: R.M([], 'le'))
@@ -452,6 +453,7 @@ def make_pool(EoN):
     add('i2', 'scalar', lambda R: 2)
     add('f05', 'scalar', lambda R: 0.5)
     add('fn', 'callable', lambda R: (lambda x: x))
+    add('ns', 'eon', lambda R: R.M(types.SimpleNamespace(rw=R.M([1], 'ns.box'), other=2), 'ns'))
 
     def clos(R):
         box = R.M([1, 2], 'clos.box')
@@ -508,6 +510,10 @@ def make_seconds():
     S['a4'] = lambda R: R.M(np.array([0.5, 0.25, 0.125, 1.0]), 'x.a4')
     S['a34'] = lambda R: R.M(np.ones((3, 4)), 'x.a34')
     S['fn'] = lambda R: (lambda *a: 0.5)
+    S['nh'] = lambda R: R.M({n: R.M((R.M([0.0, 1.0], 'x.nh.t%d' % n), R.M(['S', 'I'], 'x.nh.s%d' % n)), 'x.nh.pair%d' % n) for n in range(4)}, 'x.nh')
+    S['trans'] = lambda R: R.M([(0.5, 0, 1), (0.75, 1, 2)], 'x.trans')
+    S['stat3'] = lambda R: R.M(['S', 'I', 'R'], 'x.stat3')
+    S['pos'] = lambda R: R.M({n: (n, 0) for n in range(4)}, 'x.pos')
     return S
 
 
@@ -523,7 +529,6 @@ KEYWORDS = collections.OrderedDict([
     ('dtype=float', lambda a: {'dtype': float}),
     ('order=F', lambda a: {'order': 'F'}),
     ('subok=True', lambda a: {'subok': True}),
-    ('refcheck=False', lambda a: {'refcheck': False}),
     ('key=len', lambda a: {'key': len}),
     ('default=arg0', lambda a: {'default': a[0]}),
     ('weight=rw', lambda a: {'weight': 'rw'}),
@@ -656,6 +661,8 @@ def judge(T, kind, entry, cat, heap, res, recv_id, arg_ids, opts):
                 for k in k1:
                     allowed |= heap.mkids(k)
         allowed |= set(opts.get('_held_args', ()))
+        if opts.get('elem_views'):
+            allowed |= set(allroots)       # list(A) of a 2-d array holds row views of A: the translator lets the result view its arguments
     else:
         allowed = heap.mreach(allroots)
     allowed = heap.mates(allowed)
@@ -693,8 +700,6 @@ def table_entries(T):
         E.append(('method', m, 'LEAF', {}))
     for m in sorted(T.DEEP_METHODS):
         E.append(('method', m, 'COPY' if m in ('keys', 'values', 'items') else 'DEEP', {'two_level': True, 'noargs_only': m in ('keys', 'values', 'items')}))
-        if m in ('keys', 'values', 'items'):
-            E.append(('method', m, 'DEEP', {'args_only': True}))
     for m in sorted(T.COPY_METHODS):
         E.append(('method', m, 'COPY', {}))
     for m in sorted(T.VIEW_METHODS):
@@ -710,7 +715,8 @@ def table_entries(T):
     for f in sorted(T.LEAF_FUNCS):
         E.append(('func', f, 'LEAF', {}))
     for f in sorted(T.COPY_FUNCS):
-        E.append(('func', f, 'COPY', {'two_level': f.startswith('np.') if two is None else (f.startswith('np.') or f in two)}))
+        E.append(('func', f, 'COPY', {'two_level': f.startswith('np.') if two is None else (f.startswith('np.') or f in two),
+                                      'elem_views': f in getattr(T, 'ELEMENT_VIEWS', ()), 'kw_held': f == 'dict' and two is not None}))
     for f in sorted(T.DEEP_FUNCS):
         E.append(('func', f, 'DEEP', {}))
     for f in sorted(T.REACH_FUNCS):
@@ -727,6 +733,13 @@ def table_entries(T):
 
 # entries that cannot be called here, with the reason (checked: the name must really be absent)
 EXCUSED_ABSENT = 'absent from the installed library (a call raises AttributeError before anything is touched)'
+# calls that the generic pool cannot produce
+SPECIAL_ARGS = {
+    'EoN.Simulation_Investigation': [['P:G', 'nh', 'trans', 'stat3'], ['P:G', 'nh', 'trans', 'stat3', 'pos'], ['P:D', 'nh', 'N', 'stat3']],
+    'Simulation_Investigation': [['P:G', 'nh', 'trans', 'stat3'], ['P:G', 'nh', 'trans', 'stat3', 'pos']],
+    'delattr': [['P:ns', 'rw']],
+    'setattr': [['P:ns', 'rw', 'lbox'], ['P:ns', 'rw', 'f05']],
+}
 TRIPLES = [('ai', 'f05'), ('ai', 'a4'), ('rw', 'lbox'), ('dattr', 'rw'), ('ab4', 'a4'), ('0', '1'), ('1', '2'), ('0', 'f05'),
            ('2', 'f05'), ('0', 'lbox'), ('1', 'rw'), ('f05', '0'), ('rw', 'f05'), ('0', 'N'), ('fn', 'l01')]
 
@@ -763,6 +776,9 @@ def exercise_entry(T, EoN, entry, pool, seconds, refused_kw, quick=True):
 
     def one(rname, anames, kwname=None):
         """pretest without instrumentation, then the instrumented run on fresh objects"""
+        if TRACE:
+            with open(TRACE, 'a') as fh:
+                fh.write('%s\n' % fmt_call(kind, name, rname, anames, kwname))
         for instrumented in (False, True):
             R, recv, args = build(rname, anames)
             kw = {}
@@ -796,6 +812,8 @@ def exercise_entry(T, EoN, entry, pool, seconds, refused_kw, quick=True):
             heap, res, st = run_call(R, rr, nn, th)
             if st != 'ok':
                 return 'raises'
+            if kwname is None and kind != 'attr' and res.get('kind') == 'new' and isinstance(res.get('obj'), np.ndarray) and res['obj'].dtype != object:
+                outprobe.append((rname, list(anames), res['obj'].shape, res['obj'].dtype))
             recv_id = id(recv) if recv is not None and not is_leaf(recv) else None
             arg_ids = [id(a) for a in args if not is_leaf(a)] + [id(v) for v in kw.values() if not is_leaf(v) and id(v) not in [id(a) for a in args] and v is not recv]
             if kind == 'func' and args and is_leaf(args[0]) and cat in ('MUTATING', 'VIEW'):
@@ -804,7 +822,8 @@ def exercise_entry(T, EoN, entry, pool, seconds, refused_kw, quick=True):
                 if ch:
                     probs = ['modifies %s although the first argument is immutable' % sorted(heap.name(c) for c in ch)]
             else:
-                probs, lims = judge(T, kind, entry, cat, heap, res, recv_id, arg_ids, opts)
+                o2 = dict(opts, _held_args=[id(v) for v in kw.values() if not is_leaf(v)]) if opts.get('kw_held') else opts
+                probs, lims = judge(T, kind, entry, cat, heap, res, recv_id, arg_ids, o2)
             desc = fmt_call(kind, name, rname, anames, kwname)
             objarr = any('obj' in pool[a][0] for a in ([rname] if rname else []) + [x[2:] for x in anames if x.startswith('P:')])
             for p in probs + lims:
@@ -812,7 +831,48 @@ def exercise_entry(T, EoN, entry, pool, seconds, refused_kw, quick=True):
                 (out['limits'] if objarr or p in lims else out['problems']).setdefault(key, []).append('%s: %s' % (desc, p))
             return 'ok'
 
+    maxpos = getattr(T, 'MAX_POSITIONAL', {}).get(name if kind == 'func' else '.' + name)
+    if kind == 'func' and name == 'sum' and hasattr(T, 'MAX_POSITIONAL'):
+        maxpos = 1          # sum(xs, start) is translated as an opaque call
+
+    outprobe = []
+
+    def probe_output_buffers():
+        """a later positional parameter (or out=) that is an OUTPUT BUFFER: re-run calls whose result was a new numeric
+        array with a buffer of that shape appended (after 0..2 None paddings); a call that fills the buffer must be one
+        the translator refuses (REFUSED_KEYWORDS / MAX_POSITIONAL)"""
+        tried = 0
+        for rname, anames, shape, dtype in outprobe[:12]:
+            for pad in range(3):
+                npos = len(anames) + pad + 1
+                if maxpos is not None and npos > maxpos:
+                    continue
+                for instrumented in (False,):
+                    R, recv, args = build(rname, anames)
+                    if dtype.kind not in 'fiubc' or int(np.prod(shape)) > 10000:
+                        continue
+                    buf = R.M((np.zeros(shape) - 7).astype(dtype), 'outbuf')
+                    before = buf.tobytes()
+                    full = args + [None] * pad + [buf]
+                    try:
+                        with contextlib.redirect_stdout(io.StringIO()), contextlib.redirect_stderr(io.StringIO()), warnings.catch_warnings():
+                            warnings.simplefilter('ignore')
+                            (getattr(recv, name) if kind == 'method' else resolve(name, EoN))(*full)
+                    except BaseException as e:
+                        if isinstance(e, (KeyboardInterrupt, SystemExit, MemoryError)):
+                            raise
+                        continue
+                    tried += 1
+                    if buf.tobytes() != before and cat != 'MUTATING':
+                        desc = fmt_call(kind, name, rname, anames + ['None'] * pad + ['outbuf'], None)
+                        out['problems'].setdefault('positional output buffer', []).append(
+                            '%s: positional parameter %d is an output buffer (it was filled); the translator accepts %s positional arguments' % (
+                                desc, npos, 'any number of' if maxpos is None else maxpos))
+        out['outbuf_probes'] = tried
+
     def attempt(rname, anames):
+        if maxpos is not None and len(anames) > maxpos:
+            return          # refused by the translator (probed in part 3)
         st = one(rname, anames)
         if st == 'ok':
             out['ok'] += 1
@@ -830,7 +890,7 @@ def exercise_entry(T, EoN, entry, pool, seconds, refused_kw, quick=True):
 
     kwbudget = {}
     pnames = list(pool)
-    snames = list(S)
+    snames = [k for k in S if k not in ('nh', 'trans', 'stat3', 'pos')]
     if kind == 'func':
         f = resolve(name, EoN)
         if f is None:
@@ -841,6 +901,8 @@ def exercise_entry(T, EoN, entry, pool, seconds, refused_kw, quick=True):
                 attempt(None, list(a))
             return out
         attempt(None, [])
+        for an in SPECIAL_ARGS.get(name, []):
+            attempt(None, an)
         for p in pnames:
             attempt(None, ['P:' + p])
             for s in snames:
@@ -854,6 +916,7 @@ def exercise_entry(T, EoN, entry, pool, seconds, refused_kw, quick=True):
         for s1, s2 in TRIPLES:
             for s0 in ('0', '1', 'f05', '2'):
                 attempt(None, [s0, s1, s2])
+        probe_output_buffers()
         return out
     # methods and attributes: every pool object that has the name
     any_recv = False
@@ -888,6 +951,8 @@ def exercise_entry(T, EoN, entry, pool, seconds, refused_kw, quick=True):
                     attempt(rname, [s1, s2])
     if not any_recv:
         out['absent'] = True
+    if kind == 'method':
+        probe_output_buffers()
     return out
 
 
@@ -903,17 +968,450 @@ def _worker(a):
     return i, r
 
 
-def validate_tables(nproc=8):
-    """returns (results per entry, seconds)"""
+def validate_tables(nproc=8, per_entry_timeout=60):
+    """returns (translator module, entries, results per entry, seconds).  Every entry runs in a worker process; a worker
+    that dies or hangs (a library call that crashes the interpreter) is reported for that entry instead of hanging the check"""
+    from concurrent.futures import ProcessPoolExecutor
+    from concurrent.futures.process import BrokenProcessPool
     import multiprocessing as mp
     t0 = time.time()
     T = load_translator()
     E = table_entries(T)
     ctx = mp.get_context('fork')
-    with ctx.Pool(nproc) as p:
-        res = p.map(_worker, [(i, C.REPO) for i in range(len(E))], chunksize=1)
-    res.sort()
-    return T, E, [r for _, r in res], time.time() - t0
+    done, crashed = {}, {}
+
+    def pool_run(ids, workers, timeout):
+        """results of the entries ids; a dead worker breaks the pool: whatever is missing afterwards is returned as not done"""
+        ex = ProcessPoolExecutor(max_workers=workers, mp_context=ctx)
+        futs = {i: ex.submit(_worker, (i, C.REPO)) for i in ids}
+        err = {}
+        for i, f in futs.items():
+            try:
+                done[i] = f.result(timeout=timeout)[1]
+            except BrokenProcessPool:
+                err[i] = 'the worker process died'
+            except Exception as e:
+                err[i] = '%s: %s' % (type(e).__name__, e)
+        for p_ in list((getattr(ex, '_processes', None) or {}).values()):
+            try:
+                p_.kill()
+            except Exception:
+                pass
+        ex.shutdown(wait=False, cancel_futures=True)
+        return err
+
+    err = pool_run(list(range(len(E))), nproc, 180)
+    # a dead worker takes the whole pool with it: run what is missing one entry per pool, so that only the guilty entry is lost
+    for i in sorted(err):
+        if i not in done:
+            e1 = pool_run([i], 1, per_entry_timeout)
+            if i in e1:
+                crashed[i] = e1[i]
+    res = []
+    for i in range(len(E)):
+        if i in done:
+            res.append(done[i])
+        else:
+            res.append({'entry': '%s %s' % (E[i][0], E[i][1]), 'cat': E[i][2], 'ok': 0, 'raised': 0, 'limits': {}, 'absent': False, 'kw_ok': [],
+                        'problems': {'crash': ['the validation worker for this entry crashed or timed out (%s)' % crashed.get(i, 'not run')]}})
+    return T, E, res, time.time() - t0
+
+
+def validate_odeint(T, EoN):
+    """ODE_FUNCS: f is called with a state array that is NOT the caller's X0, nothing passed is modified, the result is new"""
+    np = _np()
+    probs, n = [], 0
+    for name in sorted(T.ODE_FUNCS):
+        fn = resolve(name, EoN)
+        if fn is None:
+            continue
+        for X0 in (np.array([1.0, 2.0]), np.arange(6.0)[::2], np.array([1, 2])):
+            ts = np.linspace(0, 1, 5); P = np.array([0.5]); seen = []
+            def f(X, t, P):
+                seen.append(X)
+                return -P[0] * X
+            b = (X0.tobytes(), ts.tobytes(), P.tobytes())
+            try:
+                r = fn(f, X0, ts, args=(P,))
+            except Exception as e:
+                probs.append('%s raised %s' % (name, type(e).__name__)); continue
+            n += 1
+            if (X0.tobytes(), ts.tobytes(), P.tobytes()) != b:
+                probs.append('%s modifies X0 / times / args' % name)
+            if any(shares(x, X0) for x in seen if isinstance(x, np.ndarray)):
+                probs.append('%s hands the caller\'s X0 itself to the right-hand side' % name)
+            if any(isinstance(r, np.ndarray) and shares(r, a) for a in (X0, ts, P)):
+                probs.append('%s returns an array sharing memory with an argument' % name)
+    return probs, n
+
+
+# ================================================================ part 2: corpus ====
+def corpus_args(EoN):
+    import numpy as np, networkx as nx
+    def G():
+        g = nx.Graph()
+        g.add_edges_from([(0, 1), (0, 2), (1, 2), (2, 3)])
+        for i, n in enumerate(g.nodes()):
+            g.nodes[n]['rw'] = 0.5 + 0.25 * i
+            g.nodes[n]['box'] = [i]
+        for i, (u, v) in enumerate(g.edges()):
+            g.edges[u, v]['tw'] = 1.0 + i
+        return g
+    return {
+        'L': lambda: [3, 1, 2], 'L0': lambda: [], 'L7': lambda: [1, 2, 3, 4, 5, 6, 7], 'L01': lambda: [0, 1],
+        'LL': lambda: [[1], [2, 3]], 'LL3': lambda: [[1], [2], [3]],
+        'A': lambda: np.array([1.0, 2.0, 3.0, 4.0]), 'A3': lambda: np.zeros(3), 'AU': lambda: np.array([3.0, 1.0, 2.0]), 'A2': lambda: np.arange(12.0).reshape(3, 4).copy(),
+        'A141': lambda: np.arange(4.0).reshape(1, 4, 1).copy(),
+        'D': lambda: {0: 1.0, 1: 2.0}, 'DL': lambda: {0: [1], 1: [2]}, 'S': lambda: {0, 1, 2},
+        'G': G, 'H': lambda: [(0.5, 0, [1]), (1.5, 1, [2])], 'T': lambda: ([1], [2]), 'N': lambda: 3,
+        'F': lambda: (lambda z: z), 'O': lambda: types.SimpleNamespace(flag=0, box=[1]),
+    }
+
+
+def load_corpus(EoN):
+    """[(file, function name, source, is_entry)] and the exec'd namespaces"""
+    funcs, spaces, cases, regression = [], {}, {}, set()
+    for fn in sorted(os.listdir(CORPUS)):
+        if not fn.endswith('.py'):
+            continue
+        src = open(os.path.join(CORPUS, fn)).read()
+        tree = ast.parse(src)
+        ns = {'myQueue': EoN.simulation.myQueue, '_ListDict_': EoN.simulation._ListDict_, '__name__': 'effects_corpus.' + fn[:-3]}
+        exec(compile(src, os.path.join(CORPUS, fn), 'exec'), ns)
+        spaces[fn] = ns
+        for top in tree.body:
+            if isinstance(top, ast.FunctionDef):
+                funcs.append((fn, top.name, ast.get_source_segment(src, top), not top.name.startswith('_')))
+        for k, v in ns.get('CASES', {}).items():
+            cases[k] = (fn, v)
+        regression |= set(ns.get('REGRESSION', []))
+    return funcs, spaces, cases, regression
+
+
+def corpus_dynamic(EoN):
+    from . import c19 as C19
+    import inspect
+    funcs, spaces, cases, regression = load_corpus(EoN)
+    builders = corpus_args(EoN)
+    dyn = {}
+    for name, (fn, argsets) in cases.items():
+        f = spaces[fn][name]
+        params = list(inspect.signature(f).parameters)
+        mod, raised, ran = set(), [], 0
+        for keys in argsets:
+            args = [builders[k]() for k in keys]
+            dflt = {p.name: p.default for p in inspect.signature(f).parameters.values() if p.default is not inspect._empty}
+            before = [C19.snap(a) for a in args]; dbefore = {k: C19.snap(v) for k, v in dflt.items()}
+            with contextlib.redirect_stdout(io.StringIO()), warnings.catch_warnings():
+                warnings.simplefilter('ignore')
+                try:
+                    _random.seed(3)
+                    f(*args)
+                    ran += 1
+                except Exception as e:
+                    raised.append(type(e).__name__)
+            for prm, b, a in zip(params, before, args):
+                if C19.snap(a) != b:
+                    mod.add(prm)
+            for k, v in dflt.items():
+                if C19.snap(v) != dbefore[k]:
+                    mod.add(k)
+        dyn[name] = {'modified': sorted(mod), 'raised': raised, 'ran': ran}
+    return funcs, cases, regression, dyn
+
+
+def run_translator_on(T, sources, workdir):
+    """(rc, message): translate a fake source tree whose EoN/simulation.py is the given function sources"""
+    os.makedirs(os.path.join(workdir, 'EoN'), exist_ok=True)
+    open(os.path.join(workdir, 'EoN', 'simulation.py'), 'w').write('\n\n'.join(sources) + '\n')
+    for f in ('analytic.py', '__init__.py'):
+        open(os.path.join(workdir, 'EoN', f), 'w').write('')
+    argv, err = sys.argv, io.StringIO()
+    sys.argv = ['effects2v.py', '--repo', workdir, '-o', os.path.join(workdir, 'Effects.v'), '--json', os.path.join(workdir, 'table.json')]
+    try:
+        with contextlib.redirect_stderr(err):
+            rc = T.main()
+    finally:
+        sys.argv = argv
+    return rc, err.getvalue().strip()
+
+
+def corpus_static(T, funcs, workdir):
+    """{function: 'refused: ..' | {'mutated': [...] or None}} by translator + Coq checker (vm_compute)"""
+    live = list(funcs)
+    refused = {}
+    for _ in range(len(funcs) + 2):
+        rc, msg = run_translator_on(T, [f[2] for f in live], workdir)
+        if rc == 0:
+            break
+        names = [f[1] for f in live]
+        hit = [n for n in re.split(r'[:\s]+', msg) if n in names]
+        if not hit:
+            return None, 'translator failed on the corpus without naming a function: ' + msg
+        refused[hit[0]] = msg.split('unsupported construct:')[-1].strip()[:160] if 'unsupported construct' in msg else msg[-160:]
+        live = [f for f in live if f[1] != hit[0]]
+    else:
+        return None, 'translator keeps refusing'
+    v = open(os.path.join(workdir, 'Effects.v')).read()
+    v += '\nEval vm_compute in (report eon_program eon_program).\n'
+    open(os.path.join(workdir, 'EffectsCorpus.v'), 'w').write(v)
+    rc, out, dt = C.sh('timeout 300 coqc -Q %s EoNV EffectsCorpus.v' % C.COQ, cwd=workdir, timeout=330)
+    if rc != 0:
+        return None, 'coqc failed on the translated corpus: ' + out[-600:]
+    txt = re.sub(r'\s+', ' ', out)
+    res = {n: 'refused: ' + m for n, m in refused.items()}
+    for m in re.finditer(r'\("(\w+)", (true|false), (Some \[(.*?)\]|None), \[(.*?)\]\)', txt):
+        n, pub, mp, plist, lines = m.groups()
+        res[n] = {'mutated': None if mp == 'None' else re.findall(r'"(\w+)"', plist or '')}
+    missing = [f[1] for f in live if f[1] not in res]
+    if missing:
+        return None, 'no verdict for %s' % missing[:5]
+    return res, ''
+
+
+def run_corpus(T, EoN):
+    import tempfile, shutil
+    t0 = time.time()
+    funcs, cases, regression, dyn = corpus_dynamic(EoN)
+    work = tempfile.mkdtemp(prefix='c19corpus_')
+    try:
+        ok, out, dt = C.coq_make(['Model/Effects.vo'], timeout=600)
+        stat, err = corpus_static(T, funcs, work) if ok else (None, 'Model/Effects.vo does not build: ' + out[-300:])
+    finally:
+        shutil.rmtree(work, ignore_errors=True)
+    rows, unsound, reg_bad = [], [], []
+    if stat is None:
+        return {'error': err, 'rows': [], 'unsound': [], 'regression_bad': [], 'seconds': round(time.time() - t0, 1)}
+    for name in sorted(cases):
+        d = dyn[name]; s_ = stat.get(name)
+        if isinstance(s_, str):
+            verdict = 'refused'
+        elif s_['mutated'] is None:
+            verdict = 'rejected(no verdict)'
+        elif s_['mutated']:
+            verdict = 'rejected'
+        else:
+            verdict = 'accepted'
+        row = {'function': name, 'really_modifies': d['modified'], 'checker': verdict,
+               'static_may_modify': None if isinstance(s_, str) else s_['mutated'], 'raised': d['raised'][:1], 'detail': s_ if isinstance(s_, str) else ''}
+        rows.append(row)
+        if verdict == 'accepted' and d['modified']:
+            unsound.append(row)
+        if name in regression and (verdict == 'accepted' or not d['modified']):
+            reg_bad.append(row)
+    return {'rows': rows, 'unsound': unsound, 'regression_bad': reg_bad, 'n': len(rows), 'seconds': round(time.time() - t0, 1),
+            'accepted_safe': sum(1 for r in rows if r['checker'] == 'accepted' and not r['really_modifies']),
+            'rejected_modifying': sum(1 for r in rows if r['checker'] != 'accepted' and r['really_modifies']),
+            'rejected_safe': sorted(r['function'] for r in rows if r['checker'] != 'accepted' and not r['really_modifies']),
+            'refused': sorted(r['function'] for r in rows if r['checker'] == 'refused')}
+
+
+# ============================================================ part 3: fail-closed ====
+PROBES_REFUSED = [
+    ('unknown method', 'def f(x):\n    x.frobnicate()\n'),
+    ('unknown library function', 'def f(x):\n    y = np.frobnicate(x)\n    return y\n'),
+    ('np.broadcast_to is in no table', 'def f(x):\n    y = np.broadcast_to(x, (2, 2))\n    return y\n'),
+    ('unknown attribute', 'def f(x):\n    y = x.frob\n    return y\n'),
+    ('exception arguments read back', 'def f(x):\n    e = ValueError(x)\n    y = e.args\n    return y\n'),
+    ('out= keyword', 'def f(x):\n    np.exp(x, out=x)\n'),
+    ('out= keyword of a method', 'def f(x):\n    x.cumsum(out=x)\n'),
+    ('copy= keyword', 'def f(x):\n    y = np.array(x, copy=False)\n    return y\n'),
+    ('copy= keyword of a method', 'def f(x):\n    y = x.astype(float, copy=False)\n    return y\n'),
+    ('inplace= keyword', 'def f(x):\n    y = x.byteswap(inplace=True)\n    return y\n'),
+    ('as_view= keyword', 'def f(G):\n    H = G.copy(as_view=True)\n    return H\n'),
+    ('positional output buffer of a ufunc', 'def f(a, b):\n    np.sqrt(a, b)\n'),
+    ('positional output buffer of a method', 'def f(a, b, c):\n    a.dot(b, c)\n'),
+    ('positional output buffer of a reduction', 'def f(a, b):\n    a.max(0, b)\n'),
+    ('positional as_view', 'def f(G):\n    H = G.copy(True)\n    return H\n'),
+    ('deepcopy memo', 'def f(x, m):\n    y = copy.deepcopy(x, m)\n    return y\n'),
+    ('** in a library call', 'def f(x, kw):\n    y = np.array(x, **kw)\n    return y\n'),
+    ('* in a library call', 'def f(x, a):\n    y = np.sqrt(*a)\n    return y\n'),
+    ('with statement', 'def f(x):\n    with x as y:\n        y.append(1)\n'),
+    ('global statement', 'def f(x):\n    global Z\n    Z = x\n'),
+    ('nonlocal / nested write', 'def f(x):\n    def g():\n        x.append(1)\n    g()\n'),
+    ('yield', 'def f(x):\n    yield x\n'),
+    ('starred assignment', 'def f(x):\n    a, *b = x\n    b.append(1)\n'),
+    ('walrus', 'def f(x):\n    if (y := x):\n        y.append(1)\n'),
+    ('import inside a function', 'def f(x):\n    import copy\n    return copy.copy(x)\n'),
+    ('*args parameter', 'def f(*x):\n    return x\n'),
+    ('decorator', 'def d(g):\n    return g\n@d\ndef f(x):\n    return x\n'),
+    ('try/finally', 'def f(x):\n    try:\n        y = 1\n    finally:\n        x.append(1)\n'),
+    ('lambda with *args', 'def f(x):\n    g = lambda *a: a\n    return g\n'),
+    ('class attribute chain', 'def f(x):\n    x.data.items.append(1)\n'),
+    ('set attribute through setattr on unknown', 'def f(x):\n    x.__dict__["a"] = 1\n'),
+    ('await', 'async def g(x):\n    return x\ndef f(x):\n    y = g(x)\n    return y\n'),
+]
+PROBES_ACCEPTED = [
+    ('copy then write', 'def f(x):\n    y = list(x)\n    y.append(1)\n    return y\n'),
+    ('axis keyword', 'def f(x):\n    y = x.sum(axis=0)\n    return y\n'),
+]
+
+
+def probes(T):
+    import tempfile, shutil
+    work = tempfile.mkdtemp(prefix='c19probe_')
+    bad = []
+    try:
+        for what, src in PROBES_REFUSED:
+            rc, msg = run_translator_on(T, [src], work)
+            if rc == 0:
+                bad.append('NOT refused: %s' % what)
+        for what, src in PROBES_ACCEPTED:
+            rc, msg = run_translator_on(T, [src], work)
+            if rc != 0:
+                bad.append('control refused (%s): %s' % (what, msg[-120:]))
+    finally:
+        shutil.rmtree(work, ignore_errors=True)
+    return bad, len(PROBES_REFUSED) + len(PROBES_ACCEPTED)
+
+
+def source_names(T, EoN):
+    """independent ast survey of the translated files: every method call, dotted library call, bare-name call and
+    attribute read inside a module-level function must be classified; also the namespace the tables assume"""
+    import builtins, numpy, networkx, random, heapq, scipy, scipy.integrate, scipy.special
+    meth_tables = [set(T.MUTATING_METHODS), T.LEAF_METHODS, T.DEEP_METHODS, T.COPY_METHODS, T.VIEW_METHODS, T.REACH_METHODS]
+    func_tables = [T.LEAF_FUNCS, T.COPY_FUNCS, T.DEEP_FUNCS, T.REACH_FUNCS, T.VIEW_FUNCS, T.MUTATING_FUNCS, T.ODE_FUNCS, {'defaultdict', 'myQueue', '_ListDict_'}]
+    allm = set().union(*meth_tables); allf = set().union(*func_tables)
+    alla = T.VIEW_ATTRS | T.LEAF_ATTRS | T.REACH_ATTRS | (allm - set(T.MUTATING_METHODS))
+    overlap = sorted(m for m in allm if sum(m in t for t in meth_tables) > 1) + sorted(f for f in allf if sum(f in t for t in func_tables) > 1)
+    used = {'methods': collections.Counter(), 'functions': collections.Counter(), 'attributes': collections.Counter()}
+    unclassified = []
+    eon_funcs = set()
+    trees = []
+    for f in ('simulation.py', 'analytic.py', '__init__.py'):
+        tree = ast.parse(open(os.path.join(C.REPO, 'EoN', f)).read())
+        trees.append((f, tree))
+        eon_funcs |= {t.name for t in tree.body if isinstance(t, ast.FunctionDef)}
+    for f, tree in trees:
+        for top in tree.body:
+            if not isinstance(top, ast.FunctionDef):
+                continue
+            local = {n.id for n in ast.walk(top) if isinstance(n, ast.Name) and isinstance(n.ctx, ast.Store)} | \
+                    {a.arg for n in ast.walk(top) if isinstance(n, (ast.FunctionDef, ast.Lambda)) for a in n.args.args} | \
+                    {n.name for n in ast.walk(top) if isinstance(n, ast.FunctionDef)}
+            callfuncs = set()
+            for n in ast.walk(top):
+                if isinstance(n, ast.Call):
+                    callfuncs.add(id(n.func))
+                    d = T.dotted(n.func)
+                    head = d.split('.')[0] if d else None
+                    if isinstance(n.func, ast.Attribute) and not (head in T.MODULES and head not in local):
+                        used['methods'][n.func.attr] += 1
+                        if n.func.attr not in allm:
+                            unclassified.append('%s:%d method .%s()' % (f, n.lineno, n.func.attr))
+                    elif d is not None:
+                        if head in local or d in eon_funcs or (d.startswith('EoN.') and d[4:] in eon_funcs):
+                            continue
+                        used['functions'][d] += 1
+                        if d not in allf:
+                            unclassified.append('%s:%d function %s()' % (f, n.lineno, d))
+            for n in ast.walk(top):
+                if isinstance(n, ast.Attribute) and id(n) not in callfuncs and isinstance(n.ctx, ast.Load):
+                    d = T.dotted(n)
+                    if d and d.split('.')[0] in T.MODULES and d.split('.')[0] not in local:
+                        continue
+                    used['attributes'][n.attr] += 1
+                    if n.attr not in alla:
+                        unclassified.append('%s:%d attribute .%s' % (f, n.lineno, n.attr))
+    # the namespace the tables assume
+    expect = {'np': numpy, 'nx': networkx, 'random': random, 'heapq': heapq, 'integrate': scipy.integrate, 'scipy': scipy, 'EoN': EoN,
+              'binom': scipy.special.binom, 'Counter': collections.Counter, 'defaultdict': collections.defaultdict}
+    wrong = []
+    for m in (EoN.simulation, EoN.analytic):
+        for k, v in vars(m).items():
+            if k in expect and v is not expect[k]:
+                wrong.append('%s.%s is %r' % (m.__name__, k, v))
+            elif k in T.MODULES and k not in expect and not isinstance(v, types.ModuleType):
+                wrong.append('%s.%s is not a module' % (m.__name__, k))
+            elif k in allf and '.' not in k and k not in expect and hasattr(builtins, k) and v is not getattr(builtins, k):
+                wrong.append('%s.%s shadows the builtin' % (m.__name__, k))
+            elif k in T.BUILTIN_VALUES and hasattr(builtins, k) and v is not getattr(builtins, k):
+                wrong.append('%s.%s shadows the builtin' % (m.__name__, k))
+    return {'unclassified': unclassified, 'namespace_mismatch': wrong, 'tables_overlap': overlap,
+            'used': {k: dict(v.most_common()) for k, v in used.items()}}
+
+
+# ================================================================== entry point ====
+EXCUSED = {
+    'method pop_and_run': 'runs the queued handlers: translated specially (queue_run: SCall of every handler); corpus gr_queue_*',
+}
+
+
+def check(run, tier, report):
+    """called from harness/c19.py on every run; records evidence in run.coverage['translator_validation']"""
+    import numpy, networkx, scipy
+    t0 = time.time()
+    ev = {'libraries': 'numpy %s, networkx %s, scipy %s, python %s' % (numpy.__version__, networkx.__version__, scipy.__version__, sys.version.split()[0])}
+    run.coverage['translator_validation'] = ev
+    try:
+        T, E, res, dt = validate_tables()
+    except Exception as e:
+        report('C19/tables/crash', 'the table validation crashed: %s: %s' % (type(e).__name__, e), {'broken': 'harness/c19_tables.py'}, True)
+        return
+    EoN = C.import_eon()
+    n_calls = sum(r['ok'] for r in res)
+    absent, unexercised, problems, limits = [], [], {}, {}
+    for e, r in zip(E, res):
+        tag = '%s %s' % (e[0], e[1])
+        if r['absent']:
+            absent.append(tag)
+        elif r['ok'] == 0 and tag not in EXCUSED:
+            unexercised.append(tag)
+        for k, v in r['problems'].items():
+            if tag in EXCUSED:
+                continue
+            problems.setdefault('%s [%s]' % (tag, e[2]), []).append(v[0])
+        for k, v in r['limits'].items():
+            limits.setdefault('%s [%s]' % (tag, e[2]), []).append(v[0])
+    ev.update({'table_entries': len(E), 'calls_observed': n_calls, 'entries_absent_from_installed_libraries': absent,
+               'entries_not_exercised': unexercised, 'excused': EXCUSED, 'seconds_tables': round(dt, 1),
+               'discrepancies': {k: v[:3] for k, v in problems.items()},
+               'object_dtype_limitation_hits': {k: v[:1] for k, v in list(limits.items())[:12]},
+               'refused_keywords': sorted(getattr(T, 'REFUSED_KEYWORDS', ())), 'keywords_tried': list(KEYWORDS)})
+    for k, v in problems.items():
+        report('C19/tables/%s' % k.split(' [')[0].replace(' ', ':'),
+               'translator table entry %s disagrees with the installed library (%s): %s' % (k, ev['libraries'], v[0][:300]),
+               {'broken': 'translate/effects2v.py table entry ' + k, 'examples': v[:5]}, True)
+    for tag in unexercised:
+        report('C19/tables/%s/not-exercised' % tag.replace(' ', ':'), 'translator table entry %s could not be exercised by any call of the validation pool' % tag,
+               {'broken': 'harness/c19_tables.py pool for ' + tag}, True)
+    op, on = validate_odeint(T, EoN)
+    ev['odeint_calls'] = on
+    for p_ in op:
+        report('C19/tables/odeint', 'ODE_FUNCS: %s' % p_, {'broken': 'translate/effects2v.py ODE_FUNCS', 'what': p_}, True)
+    ev['output_buffer_probes'] = sum(r.get('outbuf_probes', 0) for r in res)
+    # ---- fail-closed probes and the names the source uses
+    bad, n_probes = probes(T)
+    ev['fail_closed_probes'] = {'n': n_probes, 'failed': bad}
+    for b in bad:
+        report('C19/translator/probe', 'translator fail-closed probe: %s' % b, {'broken': 'translate/effects2v.py', 'probe': b}, True)
+    sn = source_names(T, EoN)
+    ev['source_names'] = {'unclassified': sn['unclassified'], 'namespace_mismatch': sn['namespace_mismatch'], 'tables_overlap': sn['tables_overlap'],
+                          'methods_used': sn['used']['methods'], 'functions_used': sn['used']['functions'], 'attributes_used': sn['used']['attributes']}
+    for what in sn['namespace_mismatch'] + sn['tables_overlap']:
+        report('C19/translator/namespace', 'the tables of the translator do not mean what the source namespace says: %s' % what,
+               {'broken': 'translate/effects2v.py tables vs. EoN namespace', 'what': what}, True)
+    ev['unclassified_names_in_source'] = sn['unclassified']      # the translator refuses them (reported by the main check)
+    # ---- the differential corpus
+    cr = run_corpus(T, EoN)
+    ev['corpus'] = {k: v for k, v in cr.items() if k != 'rows'}
+    ev['corpus']['verdicts'] = {r['function']: '%s / really modifies %s' % (r['checker'], r['really_modifies'] or 'nothing') for r in cr['rows']}
+    if cr.get('error'):
+        report('C19/corpus/error', 'the differential corpus could not be judged: %s' % cr['error'], {'broken': 'translate/effects_corpus', 'log': cr['error']}, True)
+    for r in cr['unsound']:
+        report('C19/corpus/%s' % r['function'],
+               'translator+checker ACCEPT the corpus function %s, which really modifies its argument(s) %s' % (r['function'], r['really_modifies']),
+               {'broken': 'translate/effects2v.py statement mapping', 'function': r['function'], 'file': 'translate/effects_corpus'}, True)
+    for r in cr['regression_bad']:
+        if r not in cr['unsound']:
+            report('C19/corpus/%s/regression' % r['function'], 'corpus regression function %s no longer modifies its argument (library behaviour changed?): %s' % (r['function'], r),
+                   {'broken': 'translate/effects_corpus', 'row': r}, True)
+    if not cr.get('error') and cr['accepted_safe'] < 15:
+        report('C19/corpus/vacuous', 'the checker accepts only %d harmless corpus functions: the differential test has lost its power' % cr['accepted_safe'],
+               {'broken': 'translate/effects_corpus'}, True)
+    ev['seconds'] = round(time.time() - t0, 1)
+    run.assumptions += ['translator tables: every entry validated dynamically against %s on this run (%d entries, %d observed calls); statement mapping: '
+                        'differential corpus of %d functions (accepted ones never modify an argument)' % (ev['libraries'], len(E), n_calls, cr.get('n', 0))]
 
 
 if __name__ == '__main__':
@@ -928,3 +1426,11 @@ if __name__ == '__main__':
         for k, v in r['limits'].items():
             print('      limit   (%d calls) %s' % (len(v), v[0][:200]))
     print('entries', len(E), 'problems', nprob, 'time %.1fs' % dt)
+    EoN = C.import_eon()
+    print(probes(T))
+    sn = source_names(T, EoN)
+    print({k: v for k, v in sn.items() if k != 'used'})
+    cr = run_corpus(T, EoN)
+    for r in cr.get('rows', []):
+        print('%-34s really=%-22s checker=%-10s static=%s %s %s' % (r['function'], r['really_modifies'], r['checker'], r['static_may_modify'], r['raised'], r['detail'][:90]))
+    print({k: v for k, v in cr.items() if k != 'rows'})
